@@ -174,3 +174,12 @@ Example flag_ex :
      (true, 4602678819172646912, [48; 46; 53]); (false, 4653142004841086976, [49; 50; 51; 52])]
   = [true; false; false; true].
 Proof. vm_compute. reflexivity. Qed.
+
+From V Require Import C01.Directive.
+(* the directive statement is not vacuous: it holds on the ordinary shapes *)
+Example directive_ex :
+  strict_preserved cfg_default [SrcString (34 :: use_strict_chars ++ [34]) false; SrcOther] /\
+  strict_preserved cfg_default [SrcString [39; 120; 39] false; SrcString (39 :: use_strict_chars ++ [39]) false] /\
+  strict_preserved cfg_default [SrcOther; SrcString (39 :: use_strict_chars ++ [39]) false] /\
+  strict_preserved cfg_default [SrcString [39; 120; 39] true; SrcOther].
+Proof. exact strict_preserved_examples. Qed.
